@@ -29,6 +29,33 @@ func (fr *Frame) lookupName(name string, e *Env) (SVal, bool) {
 		}
 	}
 	hb, _ := e.hdrBlock.(*ssa.BasicBlock)
+	// loop<k>_<name>: the header phi <name> of the loop with ordinal k (to mention an outer loop's variable inside an inner invariant)
+	if strings.HasPrefix(name, "loop") {
+		if i := strings.Index(name, "_"); i > 4 {
+			k := -1
+			fmt.Sscanf(name[4:i], "%d", &k)
+			for b, ord := range fr.loops {
+				if ord != k {
+					continue
+				}
+				for _, ins := range b.Instrs {
+					phi, ok := ins.(*ssa.Phi)
+					if !ok {
+						break
+					}
+					if phi.Comment == name[i+1:] {
+						if b == hb {
+							if ov, ok := e.phiOverride[phi]; ok {
+								return SVal{T: c.valTerm(ov, name), Type: phi.Type(), Val: &ov}, true
+							}
+						}
+						v := fr.vals[phi]
+						return SVal{T: c.valTerm(v, name), Type: phi.Type(), Val: &v}, true
+					}
+				}
+			}
+		}
+	}
 	if hb != nil {
 		for _, ins := range hb.Instrs {
 			phi, ok := ins.(*ssa.Phi)
@@ -44,14 +71,25 @@ func (fr *Frame) lookupName(name string, e *Env) (SVal, bool) {
 			}
 		}
 	}
-	// raw SSA register name
-	for v, val := range fr.vals {
-		if v.Name() == name {
-			vv := val
-			return SVal{T: c.valTerm(val, name), Type: v.Type(), Val: &vv}, true
+	// the value of source variable `name` at hb: the closest dominating definition, which is either a phi of an
+	// enclosing loop header / join block or a DebugRef'd assignment
+	bs := append([]nameBinding(nil), fr.names[name]...)
+	if hb != nil {
+		for _, b := range fr.fn.Blocks {
+			if b == hb || !b.Dominates(hb) {
+				continue
+			}
+			for _, ins := range b.Instrs {
+				phi, ok := ins.(*ssa.Phi)
+				if !ok {
+					break
+				}
+				if phi.Comment == name {
+					bs = append(bs, nameBinding{v: phi, block: b, pos: -1})
+				}
+			}
 		}
 	}
-	bs := fr.names[name]
 	var best *nameBinding
 	for i := range bs {
 		b := &bs[i]
@@ -65,11 +103,25 @@ func (fr *Frame) lookupName(name string, e *Env) (SVal, bool) {
 				continue
 			}
 		}
-		if best == nil || b.pos > best.pos {
+		switch {
+		case best == nil:
+			best = b
+		case b.block == best.block:
+			if b.pos > best.pos {
+				best = b
+			}
+		case best.block.Dominates(b.block):
 			best = b
 		}
 	}
 	if best == nil {
+		// raw SSA register name (escape hatch)
+		for v, val := range fr.vals {
+			if v.Name() == name {
+				vv := val
+				return SVal{T: c.valTerm(val, name), Type: v.Type(), Val: &vv}, true
+			}
+		}
 		return SVal{}, false
 	}
 	val := fr.get(best.v)
@@ -616,7 +668,7 @@ func (fr *Frame) builtin(b *ssa.Builtin, cc *ssa.CallCommon, args []Val, st *Sta
 	case "delete":
 		mt := cc.Args[0].Type().Underlying().(*types.Map)
 		dn, _, cn := c.mapNames(mt)
-		m, k := args[0].T, args[1].T
+		m, k := args[0].T, c.mapKey(mt, args[1].T)
 		dom := tSelect(c.heapGet(st, dn), m)
 		was := tSelect(dom, k)
 		cnt := tSelect(c.heapGet(st, cn), m)
@@ -659,7 +711,7 @@ func (fr *Frame) appendBuiltin(cc *ssa.CallCommon, args []Val, st *State, g *Ter
 		addLen = mk(SInt, "(s.len "+src.S+")")
 		srcArr := c.define("append.src", tSelect(c.heapGet(st, en), mk(SInt, "(s.arr "+src.S+")")))
 		srcElem = func(j *Term) *Term {
-			return tSelect(srcArr, mk(SInt, fmt.Sprintf("(+ (s.off %s) %s)", src.S, j.S)))
+			return tSelect(srcArr, mk(SInt, fmt.Sprintf("(sidx %s %s)", src.S, j.S)))
 		}
 	} else {
 		c.declareFun("gstr.at", []Sort{SStr, SInt}, SInt)
@@ -696,7 +748,7 @@ func (fr *Frame) copyBuiltin(cc *ssa.CallCommon, args []Val, st *State, g *Term)
 		s := args[1].T
 		srcLen = mk(SInt, "(s.len "+s.S+")")
 		srcArr := c.define("copy.src", tSelect(c.heapGet(st, en), mk(SInt, "(s.arr "+s.S+")")))
-		srcElem = func(j string) string { return fmt.Sprintf("(select %s (+ (s.off %s) %s))", srcArr.S, s.S, j) }
+		srcElem = func(j string) string { return fmt.Sprintf("(select %s (sidx %s %s))", srcArr.S, s.S, j) }
 	} else {
 		c.declareFun("gstr.at", []Sort{SStr, SInt}, SInt)
 		srcLen = app(SInt, "gstr.len", args[1].T)
